@@ -216,7 +216,8 @@ def translate(src_root):
             raise Untranslatable("_invoke/_async_invoke no longer contain: " + need)
     f = funcs["__call__"]
     a = f.args
-    if not (len(a.args) == 1 and a.vararg is not None and a.kwarg is not None and not a.kwonlyargs and not a.defaults):
+    # `self` positional-only (a keyword argument named self must reach **kwargs) or plain
+    if not (len(a.posonlyargs) + len(a.args) == 1 and a.vararg is not None and a.kwarg is not None and not a.kwonlyargs and not a.defaults):
         raise Untranslatable("__call__ signature")
     decos = [ast.unparse(d) for d in f.decorator_list]
     if decos != ["internalcode", "pass_eval_context"]:
